@@ -487,8 +487,41 @@ func (m *Machine) runeToLower(r *Term) *Term {
 		}
 		return res
 	}
-	m.unsupported("unicode.ToLower of a symbolic non-ASCII code point")
-	return nil
+	// non-ASCII: a term built from the real case tables of the Go release the engine is compiled
+	// with (runs of code points with a constant delta; about 600 of them)
+	res := r
+	for _, run := range lowerRuns() {
+		res = st.Ite(m.inRange(r, uint64(run.lo), uint64(run.hi)), st.Bin(OpAdd, r, st.Const(32, uint64(uint32(run.delta)))), res)
+	}
+	return res
+}
+
+type caseRun struct {
+	lo, hi rune
+	delta  int32
+}
+
+var lowerRunsCache []caseRun
+
+func lowerRuns() []caseRun {
+	if lowerRunsCache != nil {
+		return lowerRunsCache
+	}
+	var runs []caseRun
+	for r := rune(0x80); r <= 0x1FFFF; r++ {
+		l := unicode.ToLower(r)
+		if l == r {
+			continue
+		}
+		d := int32(l - r)
+		if n := len(runs); n > 0 && runs[n-1].hi == r-1 && runs[n-1].delta == d {
+			runs[n-1].hi = r
+		} else {
+			runs = append(runs, caseRun{r, r, d})
+		}
+	}
+	lowerRunsCache = runs
+	return runs
 }
 
 // ---------------------------------------------------------------- strings.Builder
